@@ -870,3 +870,26 @@ func (th *Thread) atomicYield() {
 
 var _ = sort.Strings
 var _ = token.ADD
+
+// ---- time ----
+
+const unixToInternal = 62135596800
+
+func init() {
+	// time.Now: arbitrary non-decreasing instants between 2000-01-01 and 2100-01-01 (whole seconds,
+	// no monotonic reading), so that After/Before/Sub/Since run from the real SSA.
+	intrinsics["time.Now"] = func(th *Thread, fn *ssa.Function, args []Value) Value {
+		p := th.p
+		ctx := p.ctx
+		sec := p.input("time.Now", 64)
+		lo := ctx.Const(64, unixToInternal+946684800)
+		hi := ctx.Const(64, unixToInternal+4102444800)
+		c := ctx.And(ctx.Sle(lo, sec), ctx.Sle(sec, hi))
+		if p.lastNow != nil {
+			c = ctx.And(c, ctx.Sle(p.lastNow, sec))
+		}
+		p.Assume(c)
+		p.lastNow = sec
+		return &StructV{F: []Value{ctx.Const(64, 0), sec, nilPtr}}
+	}
+}
